@@ -372,6 +372,17 @@ class SearchExec:
         self.sig_stmt = None
         self.top_signal = None
         self.nosubst = {n.func.value.id for n in ast.walk(self.fn) if _is_find(n) and isinstance(n.func.value, ast.Name)}
+        # ... and the locals handed to a generator of the package as the object it calls find() on
+        for n in ast.walk(self.fn):
+            g = self.package_generator(n) if isinstance(n, ast.Call) else None
+            if g is not None:
+                gps = g.params()
+                for c in ast.walk(g.node):
+                    if _is_find(c) and isinstance(c.func.value, ast.Name) and c.func.value.id in gps:
+                        i = gps.index(c.func.value.id)
+                        if i < len(n.args) and isinstance(n.args[i], ast.Name):
+                            self.nosubst.add(n.args[i].id)
+        self.gen_stack = []
         self.nopaque = 0
         self.in_miss = 0
         self.top_returns = []
@@ -395,6 +406,63 @@ class SearchExec:
                         self.nopaque += 1
                         env[n.id] = ast.Name(id=f'{n.id}@{self.nopaque}', ctx=ast.Load())
 
+    def package_generator(self, call):
+        """FuncInfo of the generator function of the package that `call` calls (plain positional parameters), else None"""
+        if not isinstance(call, ast.Call) or call.keywords or any(isinstance(a, ast.Starred) for a in call.args):
+            return None
+        tgt = self.m.resolve_call(self.fi, call)
+        if tgt is None or not self.m.has_func(tgt):
+            return None
+        g = self.m.func(tgt)
+        a = g.node.args
+        if not isinstance(g.node, ast.FunctionDef) or g.node.decorator_list or a.vararg or a.kwarg or a.kwonlyargs or a.posonlyargs or g.cls is not None \
+                or g.node is self.fn or not any(isinstance(n, ast.Yield) for n in ast.walk(g.node)) or any(isinstance(n, ast.YieldFrom) for n in ast.walk(g.node)):
+            return None
+        np_, nd = len(a.args), len(a.defaults)
+        if not (np_ - nd <= len(call.args) <= np_):
+            return None
+        return g
+
+    def run_generator(self, s, g, call, env):
+        """`for <target> in g(args): BODY` executed as g's body with every `yield e` meaning `<target> = e; BODY` and g's `return`
+        ending the loop - whatever control flow g uses (the rule then sees the find() loop of g with BODY's yield inside it)."""
+        if len(self.gen_stack) >= 2:
+            self.und(f'generators nested more than two deep at `{u(call)[:50]}`')
+        a = g.node.args
+        ps = [x.arg for x in a.args]
+        vals = list(call.args) + [copy.deepcopy(d) for d in a.defaults[len(a.defaults) - (len(ps) - len(call.args)):]] if len(call.args) < len(ps) else list(call.args)
+        genv = dict(zip(ps, vals))
+        self.rep.functions.add(g.qualname)
+        ctx = dict(stmt=s, env=env, yields={id(n) for n in ast.walk(g.node) if isinstance(n, ast.Yield)},
+                   returns={id(n) for n in ast.walk(g.node) if isinstance(n, ast.Return)}, g=g)
+        self.gen_stack.append(ctx)
+        try:
+            sig = self.block(g.node.body, genv)
+        finally:
+            self.gen_stack.pop()
+        return None if sig in (None, 'gen-stop') else sig
+
+    def gen_yield(self, ctx, value, genv):
+        """a yield of the generator being run: bind the loop target in the caller and run the loop body there"""
+        s, env = ctx['stmt'], ctx['env']
+        val = self.sub(value, genv) if value is not None else ast.Constant(value=None)
+        if isinstance(s.target, ast.Name):
+            env[s.target.id] = val
+        elif isinstance(s.target, (ast.Tuple, ast.List)) and all(isinstance(e, ast.Name) for e in s.target.elts) and isinstance(val, (ast.Tuple, ast.List)) \
+                and len(val.elts) == len(s.target.elts):
+            for e, x in zip(s.target.elts, val.elts):
+                env[e.id] = x
+        else:
+            self.und(f'`for {u(s.target)} in {u(s.iter)[:40]}`: the yielded value `{u(val)[:40]}` cannot be unpacked statically')
+        self.gen_stack.pop()            # the body belongs to the caller
+        try:
+            sig = self.block(s.body, env)
+        finally:
+            self.gen_stack.append(ctx)
+        if sig == 'break':
+            return 'gen-stop'           # leaving the for loop abandons the generator
+        return None if sig == 'continue' else sig
+
     def do_find(self, call, env, stmt):
         if not isinstance(call.func.value, ast.Name) and call.args and isinstance(call.args[0], ast.Name) and u(self.sub(call.func.value, env)).endswith('.prefix'):
             self.rep.add('K1', self.fi.site(call), 'find() is called as haystack.find(needle, start, end)', False, expected='haystack.find(<prefix>, start, end)',
@@ -405,7 +473,10 @@ class SearchExec:
         self.nr += 1
         r = f'__r{self.nr}'
         a = [self.sub(x, env) for x in call.args] + [None, None]
-        self.events.append(dict(k='F', node=call, stmt=stmt, hay=call.func.value.id, needle=a[0], start=a[1], end=a[2], r=r))
+        recv = self.sub(call.func.value, env)
+        self.rep.require(isinstance(recv, ast.Name), f'find_kmers: find() receiver `{u(recv)[:40]}` is not a local of find_kmers')
+        anchor = self.gen_stack[0]['stmt'] if self.gen_stack else stmt
+        self.events.append(dict(k='F', node=call, stmt=stmt, anchor=anchor, hay=recv.id, needle=a[0], start=a[1], end=a[2], r=r))
         self.status[r] = 'unknown'
         return ast.Name(id=r, ctx=ast.Load())
 
@@ -571,6 +642,8 @@ class SearchExec:
             return None
         if isinstance(s, ast.Expr):
             v = s.value
+            if isinstance(v, ast.Yield) and self.gen_stack and id(v) in self.gen_stack[-1]['yields']:
+                return self.gen_yield(self.gen_stack[-1], v.value, env)
             if isinstance(v, ast.Yield):
                 if v.value is not None and _has(v.value, lambda n: _is_find(n) or isinstance(n, (ast.Yield, ast.YieldFrom))):
                     self.und(f'`{u(s)}`: find() / yield inside a yielded expression')
@@ -606,6 +679,9 @@ class SearchExec:
             if isinstance(s.target, ast.Name):
                 env[s.target.id] = ast.BinOp(left=self.sub(ast.Name(id=s.target.id, ctx=ast.Load()), env), op=s.op, right=self.sub(s.value, env))
             return None
+        if isinstance(s, ast.Return) and self.gen_stack and id(s) in self.gen_stack[-1]['returns']:
+            self.sig_stmt = s
+            return 'gen-stop'               # the generator is exhausted: the for loop over it ends
         if isinstance(s, ast.Return) and not self.in_miss and not any(isinstance(x, _LoopMark) for x in self.rest):
             self.top_returns.append(s)      # reported as an early return; the rest is still evaluated
             return None
@@ -638,6 +714,8 @@ class SearchExec:
             rows = self.generator_rows(it)
             if rows is not None:
                 it = ast.Tuple(elts=rows, ctx=ast.Load())
+            elif not s.orelse and self.package_generator(it) is not None:
+                return self.run_generator(s, self.package_generator(it), it, env)
             if isinstance(it, (ast.Tuple, ast.List)) and not s.orelse and not ctrl and not any(isinstance(e, ast.Starred) for e in it.elts):
                 bound = {n.id for n in ast.walk(s.target) if isinstance(n, ast.Name)}
                 if any(isinstance(n, ast.Name) and n.id in bound and isinstance(n.ctx, ast.Store) for st in stmts_in(s.body) for t in assigned_targets(st) for n in ast.walk(t)):
@@ -686,7 +764,7 @@ class SearchExec:
                 sig = self.block(s.body, env)
             finally:
                 self.rest.pop()
-            if sig in ('break', 'return'):
+            if sig in ('break', 'return', 'gen-stop'):
                 seg['abort'] = (sig, self.sig_stmt)
                 break
             seg['envs'].append({k: u(env[k]) for k in bound if k in env})
@@ -886,7 +964,7 @@ def analyse_search_loops(ctx):
                 else:
                     bad_miss.append('`return` on a miss (skips the other strand)')
                     accounted_returns.add(id(t['miss_stmt']))
-            elif t['miss_sig'] not in ('break', 'exit'):
+            elif t['miss_sig'] not in ('break', 'exit', 'gen-stop'):
                 bad_miss.append('no `break` on a miss: the loop goes on with the miss value')
         rep.add('K1', fi.site(loop), f'{kind}: a miss terminates the search', bool(tests) and not bad_miss, expected='if loc < 0: break',
                 found=sorted(set(bad_miss)) or ('ok' if tests else 'no test of the find() result'), stmt=f'{kind}: miss exit')
@@ -918,7 +996,7 @@ def analyse_search_loops(ctx):
                 expected=str(kind == 'reverse'), found=u(flags[0]), stmt=f'{kind}: reverse flag')
         rep.add('K1', fi.site(call0), f'{kind}: the match carries the search parameters and the searched sequence', fields_ok, expected=(spec, seqp), found=found_fields,
                 stmt=f'{kind}: match fields')
-        result[kind] = dict(init=init, end=end, pos=pos, hay=hay, loop=loop, find=f1['node'], first_stmt=f1['stmt'])
+        result[kind] = dict(init=init, end=end, pos=pos, hay=hay, loop=loop, find=f1['node'], first_stmt=f1.get('anchor', f1['stmt']))
     rep.require(set(result) == {'forward', 'reverse'}, 'find_kmers: need one forward and one reverse search loop')
     all_yields = [n for n in ast.walk(fn) if isinstance(n, (ast.Yield, ast.YieldFrom))]
     stray = [n for n in all_yields if id(n) not in accounted_yields]
@@ -1664,44 +1742,163 @@ def array_props(e, store, kind):
     return out
 
 
-def analyse_accumulators(ctx):
+_ATTRS_CLASS = {'attr.attrs', 'attr.s', 'attr.attributes', 'attr.define', 'attr.mutable', 'attr.frozen', 'attrs.define', 'attrs.mutable', 'attrs.frozen'}
+_ATTRS_AUTO = {'attr.define', 'attr.mutable', 'attr.frozen', 'attrs.define', 'attrs.mutable', 'attrs.frozen'}
+_ATTRS_FIELD = {'attr.attrib', 'attr.ib', 'attr.attr', 'attr.field', 'attrs.field'}
+
+
+class _ClassScope:
+    """resolver for expressions written in a class body (what m.resolve_call needs of a FuncInfo)"""
+
+    def __init__(self, ci):
+        self.module, self.cls, self.qualname = ci.module, ci, ci.qualname
+
+
+def instance_state(ctx, ci):
+    """State of a freshly constructed instance of class ci: {attribute: (value expression, site, resolver, shared)} and the name of the
+    constructor parameter that carries k.  `shared` is None when the value is created for each instance and a description when one
+    object is shared by all instances (attrs `default=` of a mutable display / call is evaluated once, at class definition).
+    Sources: a hand-written __init__ (single path, locals substituted); or, for attrs classes, the field declarations of the class and
+    its bases (init parameter / default= / factory=) followed by the stores of __attrs_post_init__ (super() calls followed)."""
     rep, m = ctx.rep, ctx.model
-    subs = m.subclasses('gambit.sigs.calc.KmerAccumulator')
-    rep.floor('K7', 'KmerAccumulator subclasses', len(subs), 2)
-    for ci in sorted(subs, key=lambda c: c.qualname):
-        init, add, sig = ci.methods.get('__init__'), ci.methods.get('add'), ci.methods.get('signature')
-        rep.require(init and add and sig, f'{ci.qualname}: missing __init__/add/signature')
-        for f in (init, add, sig):
-            rep.functions.add(f.qualname)
+    init = ci.methods.get('__init__')
+    if init is not None:
+        rep.functions.add(init.qualname)
         kparam = init.params()[1] if len(init.params()) > 1 else None
-        # the attribute values as they are stored (locals substituted), on the single path through __init__
         ipaths, _ = enum_paths(init, f'{ci.qualname}.__init__')
         ipaths = [p for p in ipaths if p.kind != 'raise']
         rep.require(len(ipaths) == 1, f'{ci.qualname}.__init__: {len(ipaths)} paths (expected one)')
         sets = {}
         for (k_, st, tgt, val) in ipaths[0].effects:
             if k_ == 'store' and isinstance(tgt, ast.Attribute) and u(tgt.value) == 'self':
-                sets[tgt.attr] = (val, st)
+                sets[tgt.attr] = (val, init.site(st), init, None)
+        return sets, kparam
+
+    def attrs_deco(c):
+        for d in c.node.decorator_list:
+            f = d.func if isinstance(d, ast.Call) else d
+            q = m.resolve(c.module, f)
+            if q in _ATTRS_CLASS:
+                kw = {k.arg: k.value for k in d.keywords} if isinstance(d, ast.Call) else {}
+                return q, kw
+        return None
+    rep.require(attrs_deco(ci) is not None, f'{ci.qualname}: neither a hand-written __init__ nor an attrs class: the initial state cannot be evaluated')
+    sets, init_params = {}, []
+    for cq in reversed(m.mro(ci.qualname)):
+        c = m.classes.get(cq)
+        if c is None:
+            continue
+        deco = attrs_deco(c)
+        if deco is None:
+            continue
+        rep.require('init' not in deco[1] or is_const(deco[1]['init'], True), f'{c.qualname}: attrs class with init={u(deco[1].get("init"))}')
+        auto = deco[0] in _ATTRS_AUTO or ('auto_attribs' in deco[1] and is_const(deco[1]['auto_attribs'], True))
+        scope = _ClassScope(c)
+        for st in c.node.body:
+            if isinstance(st, ast.AnnAssign) and isinstance(st.target, ast.Name):
+                name, val = st.target.id, st.value
+            elif isinstance(st, ast.Assign) and len(st.targets) == 1 and isinstance(st.targets[0], ast.Name):
+                name, val = st.targets[0].id, st.value
+            else:
+                continue
+            is_field = isinstance(val, ast.Call) and m.resolve(c.module, val.func) in _ATTRS_FIELD
+            if not is_field and not (auto and isinstance(st, ast.AnnAssign)):
+                continue
+            if u(getattr(st, 'annotation', None) or ast.Constant(value=None)).startswith(('ClassVar', 'typing.ClassVar')):
+                continue
+            kw = {k.arg: k.value for k in val.keywords} if is_field else {}
+            rep.require(not is_field or (not val.args and None not in kw), f'{c.qualname}.{name}: attrib() with positional / ** arguments')
+            default = kw.get('default') if is_field else val
+            factory = kw.get('factory') if is_field else None
+            if isinstance(default, ast.Call) and m.resolve(c.module, default.func) in ('attr.Factory', 'attrs.Factory') and len(default.args) == 1 and not default.keywords:
+                factory, default = default.args[0], None
+            in_init = not ('init' in kw and is_const(kw['init'], False))
+            rep.require('init' not in kw or isinstance(kw['init'], ast.Constant), f'{c.qualname}.{name}: init={u(kw.get("init"))}')
+            rep.require('converter' not in kw, f'{c.qualname}.{name}: attrib(converter=...) is outside the evaluated vocabulary')
+            pname = name.lstrip('_')
+            site_ = c.site(st)
+            if factory is not None:
+                v = ast.Call(func=copy.deepcopy(factory), args=[], keywords=[])
+                sets[name] = (v, site_, scope, None)
+                if in_init:
+                    raise Undecided(f'{c.qualname}.{name}: a constructor argument with a factory default is outside the evaluated vocabulary')
+            elif default is not None:
+                immutable = isinstance(default, ast.Constant) or (isinstance(default, ast.Tuple) and all(isinstance(e, ast.Constant) for e in default.elts)) \
+                    or (isinstance(default, ast.UnaryOp) and isinstance(default.operand, ast.Constant))
+                why = None if immutable else f'default={u(default)} is evaluated once when the class is defined: one object shared by every instance (use factory=)'
+                sets[name] = (default, site_, scope, why)
+                if in_init:
+                    raise Undecided(f'{c.qualname}.{name}: a constructor argument with a default is outside the evaluated vocabulary')
+            elif in_init:
+                sets[name] = (ast.Name(id=pname, ctx=ast.Load()), site_, scope, None)
+                init_params.append(pname)
+            else:
+                sets.pop(name, None)            # declared, set later (or never)
+
+    # __attrs_post_init__ of the most derived class that has one, super() calls followed in order
+    def post_init(fi_, depth=0):
+        rep.require(depth < 6, f'{ci.qualname}: __attrs_post_init__ chain too deep')
+        rep.functions.add(fi_.qualname)
+        paths, _ = enum_paths(fi_, fi_.qualname)
+        paths = [p for p in paths if p.kind != 'raise']
+        rep.require(len(paths) == 1, f'{fi_.qualname}: {len(paths)} paths (expected one)')
+        for (k_, st, x, y) in paths[0].effects:
+            if k_ == 'store' and isinstance(x, ast.Attribute) and u(x.value) == 'self':
+                sets[x.attr] = (y, fi_.site(st), fi_, None)
+            elif k_ == 'expr' and isinstance(x, ast.Call) and isinstance(x.func, ast.Attribute) and x.func.attr == '__attrs_post_init__' and not x.args and not x.keywords:
+                q = m.resolve_call(fi_, x)
+                rep.require(q is not None and m.has_func(q), f'{fi_.qualname}: `{u(x)}` cannot be resolved')
+                post_init(m.func(q), depth + 1)
+            else:
+                raise Undecided(f'{fi_.qualname}: `{u(st)[:60]}` is outside the evaluated vocabulary (stores to self and super().__attrs_post_init__() only)')
+    pi = m.find_method(ci.qualname, '__attrs_post_init__')
+    if pi is not None:
+        post_init(pi)
+    rep.require(init_params[:1] == ['k'] and len(init_params) == 1, f'{ci.qualname}: generated __init__ takes {init_params} (expected the single argument k)')
+    return sets, 'k'
+
+
+def analyse_accumulators(ctx):
+    rep, m = ctx.rep, ctx.model
+    subs = m.subclasses('gambit.sigs.calc.KmerAccumulator')
+    rep.floor('K7', 'KmerAccumulator subclasses', len(subs), 2)
+    for ci in sorted(subs, key=lambda c: c.qualname):
+        add, sig = ci.methods.get('add'), ci.methods.get('signature')
+        rep.require(add and sig, f'{ci.qualname}: missing add/signature')
+        for f in (add, sig):
+            rep.functions.add(f.qualname)
+        # the state of a fresh instance: attribute -> (value expression, site, resolver, why-shared) - from a hand-written __init__ or from
+        # the attrs declarations of the class and its bases plus __attrs_post_init__
+        sets, kparam = instance_state(ctx, ci)
         dt = sets.get('_dtype')
-        okdt = dt is not None and isinstance(dt[0], ast.Call) and m.resolve_call(init, dt[0]) == 'gambit.kmers.index_dtype' \
+        okdt = dt is not None and isinstance(dt[0], ast.Call) and m.resolve_call(dt[2], dt[0]) == 'gambit.kmers.index_dtype' \
             and [u(a) for a in dt[0].args] in (['self.k'], [kparam]) and not dt[0].keywords
         okk = 'k' in sets and u(sets['k'][0]) == kparam
-        rep.add('K7', init.site(dt[1] if dt is not None else None), f'{ci.name}: output dtype is index_dtype(k) of its own k', okdt and okk,
+        rep.add('K7', dt[1] if dt is not None else ci.site(), f'{ci.name}: output dtype is index_dtype(k) of its own k', okdt and okk,
                 expected='self.k = k; self._dtype = index_dtype(self.k)', found=(u(sets['k'][0]) if 'k' in sets else None, u(dt[0]) if dt else None), stmt=f'{ci.name}: dtype')
         # storage
         store_attr = None
         store_kind = None
-        for a, (v, st) in sets.items():
+        for a, (v, site_, rf, shared) in sets.items():
             if isinstance(v, ast.Call) and u(v.func) == 'set' and not v.args and not v.keywords:
                 store_attr, store_kind = a, 'set'
             elif isinstance(v, ast.Call) and u(v.func) in ('np.zeros', 'numpy.zeros'):
                 store_attr, store_kind = a, 'dense'
                 n_arg = get_arg(v, 0, 'shape')
-                okn = isinstance(n_arg, ast.Call) and m.resolve_call(init, n_arg) == 'gambit.kmers.nkmers' and [u(x) for x in n_arg.args] in ([kparam], ['self.k']) and not n_arg.keywords
+                okn = isinstance(n_arg, ast.Call) and m.resolve_call(rf, n_arg) == 'gambit.kmers.nkmers' and [u(x) for x in n_arg.args] in ([kparam], ['self.k']) and not n_arg.keywords
                 dtk = get_arg(v, 1, 'dtype')
-                rep.add('K7', init.site(st), f'{ci.name}: dense array has one boolean cell per possible k-mer', okn and u(dtk) in ('bool', 'np.bool_', "'bool'"),
+                rep.add('K7', site_, f'{ci.name}: dense array has one boolean cell per possible k-mer', okn and u(dtk) in ('bool', 'np.bool_', "'bool'"),
                         expected='np.zeros(nkmers(k), dtype=bool)', found=u(v), stmt=f'{ci.name}: dense storage')
+        if store_kind is None:
+            for a, v in ci.class_attrs.items():
+                if isinstance(v, ast.Call) and (u(v.func) in ('np.zeros', 'numpy.zeros') or (u(v.func) == 'set' and not v.args)):
+                    rep.add('K7', ci.site(v), f'{ci.name}: every instance gets its own storage (an accumulator starts empty)', False,
+                            expected='created per instance (in __init__ / __attrs_post_init__ / factory=)', found=f'class attribute {a} = {u(v)}: one object shared by every instance',
+                            stmt=f'{ci.name}: storage per instance')
         rep.require(store_kind is not None, f'{ci.qualname}: storage is neither a set() nor np.zeros(...)')
+        shared = sets[store_attr][3]
+        rep.add('K7', sets[store_attr][1], f'{ci.name}: every instance gets its own storage (an accumulator starts empty)', shared is None,
+                expected='created per instance (in __init__ / __attrs_post_init__ / factory=)', found=shared or u(sets[store_attr][0]), stmt=f'{ci.name}: storage per instance')
         # add: what the method does to the storage, with locals substituted
         ap = add.params()[1]
         apaths, _ = enum_paths(add, f'{ci.qualname}.add')
@@ -2138,6 +2335,17 @@ _PROD = ("\n\ndef iter_indices(kmerspec, seq):\n\tdata = seq_to_bytes(seq)\n\n\t
 _S2B_TBL = ("def _as_is(seq):\n\treturn seq\n\n\ndef _encode_ascii(seq):\n\treturn seq.encode('ascii')\n\n\n"
             "_CONVERTERS = {\n\tbytes: _as_is,\n\tbytearray: _as_is,\n\tstr: _encode_ascii,\n\tSeq: bytes,\n}\n\n\n")
 _S2B_TBL_USE = "\tconvert = _CONVERTERS.get(type(seq))\n\tif convert is not None:\n\t\treturn convert(seq)\n\n"
+_FINDALL = ("def _find_all(haystack: bytes, needle: bytes, start: int, end: int) -> Iterator[int]:\n\twhile True:\n\t\tloc = haystack.find(needle, start, end)\n"
+            "\t\tif loc < 0:\n\t\t\treturn\n\n\t\tyield loc\n\n\t\tstart = loc + 1\n\n\n")
+_ATTRS_EDITS = [
+    (_C, "import numpy as np\n\nfrom .base import", "import numpy as np\nfrom attr import attrs, attrib\n\nfrom .base import"),
+    (_C, "class KmerAccumulator(MutableSet[int]):", "@attrs(eq=False)\nclass KmerAccumulator(MutableSet[int]):"),
+    (_C, "\tk: int\n\n\tdef add_kmer", "\tk: int = attrib()\n\t_dtype: np.dtype = attrib(init=False, repr=False)\n\n\tdef __attrs_post_init__(self):\n\t\tself._dtype = index_dtype(self.k)\n\n\tdef add_kmer"),
+    (_C, "class ArrayAccumulator(KmerAccumulator):", "@attrs(eq=False)\nclass ArrayAccumulator(KmerAccumulator):"),
+    (_C, "\tarray: np.ndarray\n\n\tdef __init__(self, k: int):\n\t\tself.k = k\n\t\tself.array = np.zeros(nkmers(k), dtype=bool)\n\t\tself._dtype = index_dtype(self.k)\n",
+     "\tarray: np.ndarray = attrib(init=False, repr=False)\n\n\tdef __attrs_post_init__(self):\n\t\tsuper().__attrs_post_init__()\n\t\tself.array = np.zeros(nkmers(self.k), dtype=bool)\n"),
+    (_C, "class SetAccumulator(KmerAccumulator):", "@attrs(eq=False)\nclass SetAccumulator(KmerAccumulator):"),
+]
 VARIANTS = [
     V('forward restart after the whole prefix (overlaps missed)', 'B', _K, "\t\tyield KmerMatch(kmerspec, seq, loc, False)\n\n\t\tstart = loc + 1",
       "\t\tyield KmerMatch(kmerspec, seq, loc, False)\n\n\t\tstart = loc + kmerspec.prefix_len", 'K1'),
@@ -2295,6 +2503,31 @@ VARIANTS = [
       also=[(_SQ, "def seq_to_bytes(seq: 'DNASeq')", _S2B_TBL + "def seq_to_bytes(seq: 'DNASeq')")]),
     V('converter table lower-cases str on the way', 'B', _SQ, _S2B, _S2B_TBL_USE + _S2B, 'K10',
       also=[(_SQ, "def seq_to_bytes(seq: 'DNASeq')", _S2B_TBL.replace("return seq.encode('ascii')", "return seq.lower().encode('ascii')") + "def seq_to_bytes(seq: 'DNASeq')")]),
+    # ---- fourth round: bugs hidden inside refactorings
+    V('E: searches through a generator that returns on the miss and restarts by reassigning its parameter', 'E', _K, _FWD, "\tk = kmerspec.k\n\tseqlen = len(haystack)\n\n\tfor loc in _find_all(haystack, kmerspec.prefix, 0, -k):\n\t\tyield KmerMatch(kmerspec, seq, loc, False)\n",
+      also=[(_K, _REV, "\tfor loc in _find_all(haystack, prefix_rc, k, seqlen):\n\t\tyield KmerMatch(kmerspec, seq, loc + kmerspec.prefix_len - 1, True)\n"),
+            (_K, "def find_kmers(kmerspec: KmerSpec, seq: 'DNASeq') -> Iterator[KmerMatch]:", _FINDALL + "def find_kmers(kmerspec: KmerSpec, seq: 'DNASeq') -> Iterator[KmerMatch]:")]),
+    V('E: the same generator with a default end for the reverse search', 'E', _K, _FWD, "\tfor loc in _find_all(haystack, kmerspec.prefix, 0, -kmerspec.k):\n\t\tyield KmerMatch(kmerspec, seq, loc, False)\n",
+      also=[(_K, _REV, "\tfor loc in _find_all(haystack, prefix_rc, kmerspec.k):\n\t\tyield KmerMatch(kmerspec, seq, loc + kmerspec.prefix_len - 1, True)\n"),
+            (_K, "def find_kmers(kmerspec: KmerSpec, seq: 'DNASeq') -> Iterator[KmerMatch]:", _FINDALL.replace("start: int, end: int)", "start: int, end=None)") + "def find_kmers(kmerspec: KmerSpec, seq: 'DNASeq') -> Iterator[KmerMatch]:")]),
+    V('shared search generator given the absolute end seqlen - k (negative for short sequences; seeded C01d)', 'B', _K, _FWD,
+      "\tk = kmerspec.k\n\tseqlen = len(haystack)\n\n\tfor loc in _find_all(haystack, kmerspec.prefix, 0, seqlen - k):\n\t\tyield KmerMatch(kmerspec, seq, loc, False)\n", 'K1',
+      also=[(_K, _REV, "\tfor loc in _find_all(haystack, prefix_rc, k, seqlen):\n\t\tyield KmerMatch(kmerspec, seq, loc + kmerspec.prefix_len - 1, True)\n"),
+            (_K, "def find_kmers(kmerspec: KmerSpec, seq: 'DNASeq') -> Iterator[KmerMatch]:", _FINDALL + "def find_kmers(kmerspec: KmerSpec, seq: 'DNASeq') -> Iterator[KmerMatch]:")]),
+    V('shared search generator restarts after the whole needle', 'B', _K, _FWD, "\tk = kmerspec.k\n\tseqlen = len(haystack)\n\n\tfor loc in _find_all(haystack, kmerspec.prefix, 0, -k):\n\t\tyield KmerMatch(kmerspec, seq, loc, False)\n", 'K1',
+      also=[(_K, _REV, "\tfor loc in _find_all(haystack, prefix_rc, k, seqlen):\n\t\tyield KmerMatch(kmerspec, seq, loc + kmerspec.prefix_len - 1, True)\n"),
+            (_K, "def find_kmers(kmerspec: KmerSpec, seq: 'DNASeq') -> Iterator[KmerMatch]:", _FINDALL.replace("start = loc + 1", "start = loc + len(needle)") + "def find_kmers(kmerspec: KmerSpec, seq: 'DNASeq') -> Iterator[KmerMatch]:")]),
+    V('consumer of the search generator stops at the first occurrence', 'B', _K, _FWD, "\tk = kmerspec.k\n\tseqlen = len(haystack)\n\n\tfor loc in _find_all(haystack, kmerspec.prefix, 0, -k):\n\t\tyield KmerMatch(kmerspec, seq, loc, False)\n\t\tbreak\n", 'K1',
+      also=[(_K, _REV, "\tfor loc in _find_all(haystack, prefix_rc, k, seqlen):\n\t\tyield KmerMatch(kmerspec, seq, loc + kmerspec.prefix_len - 1, True)\n"),
+            (_K, "def find_kmers(kmerspec: KmerSpec, seq: 'DNASeq') -> Iterator[KmerMatch]:", _FINDALL + "def find_kmers(kmerspec: KmerSpec, seq: 'DNASeq') -> Iterator[KmerMatch]:")]),
+    V('E: accumulators as attrs classes, storage from factory= / __attrs_post_init__', 'E', _C, "\n\tset: set\n\n\tdef __init__(self, k: int):\n\t\tself.k = k\n\t\tself.set = set()\n\t\tself._dtype = index_dtype(self.k)\n",
+      "\tset: set = attrib(init=False, repr=False, factory=set)\n", also=_ATTRS_EDITS),
+    V('attrs accumulator: the set is a shared default (seeded C06d)', 'B', _C, "\n\tset: set\n\n\tdef __init__(self, k: int):\n\t\tself.k = k\n\t\tself.set = set()\n\t\tself._dtype = index_dtype(self.k)\n",
+      "\tset: set = attrib(init=False, repr=False, default=set())\n", 'K7', also=_ATTRS_EDITS),
+    V('attrs accumulator: the dense array post-init does not run the base set-up (no dtype)', 'B', _C, "\n\tset: set\n\n\tdef __init__(self, k: int):\n\t\tself.k = k\n\t\tself.set = set()\n\t\tself._dtype = index_dtype(self.k)\n",
+      "\tset: set = attrib(init=False, repr=False, factory=set)\n", 'K7', also=[(f, o, n.replace("\t\tsuper().__attrs_post_init__()\n", "")) for (f, o, n) in _ATTRS_EDITS]),
+    V('attrs accumulator: dtype taken for a fixed k in the base set-up', 'B', _C, "\n\tset: set\n\n\tdef __init__(self, k: int):\n\t\tself.k = k\n\t\tself.set = set()\n\t\tself._dtype = index_dtype(self.k)\n",
+      "\tset: set = attrib(init=False, repr=False, factory=set)\n", 'K7', also=[(f, o, n.replace("self._dtype = index_dtype(self.k)\n\n\tdef add_kmer", "self._dtype = index_dtype(11)\n\n\tdef add_kmer")) for (f, o, n) in _ATTRS_EDITS]),
     # ---- generalised forms (each accepted idiom with its broken twin)
     # K1: the search as a trace - rotated loop (priming find, hit test as loop condition)
     V('E: forward search as priming find + while loc >= 0', 'E', _K, _FWD, _FWD_ROT),
